@@ -6,7 +6,16 @@ from .sym import show, key
 
 
 def norm(s):
-    return re.sub(r'now#\d+', 'now', s)
+    """print-level canonicalisation: clock readings lose their serial number; the payload of an Option / Result known to be Some / Ok / Err is
+    always written field:0(X), whether it came from a match arm, an `unwrap()` or a combinator"""
+    s = re.sub(r'now#\d+', 'now', s)
+    s = re.sub(r'\bunwrap\(', 'field:0(', s)
+    s = re.sub(r'\bunwrap_err\(', 'field:0(', s)
+    prev = None
+    while prev != s:
+        prev = s
+        s = re.sub(r'([A-Za-z_][\w\.]*?)#(?:Some|Ok|Err)\.0', r'field:0(\1)', s)
+    return s
 
 
 def vshow(v):
@@ -23,11 +32,118 @@ class Atom:
         self.truth = truth
 
     def match(self, atom_str):
-        if self.pos.fullmatch(atom_str):
-            return 1
-        if self.neg is not None and self.neg.fullmatch(atom_str):
-            return -1
+        # a comparison may be spelt four ways (a < b, b > a, !(a >= b), !(b <= a)); the specification regexes are written in one of them
+        for s_, pol in spellings(atom_str):
+            if self.pos.fullmatch(s_):
+                return pol
+            if self.neg is not None and self.neg.fullmatch(s_):
+                return -pol
         return 0
+
+
+_MIRROR = {'Lt': 'Gt', 'Gt': 'Lt', 'Le': 'Ge', 'Ge': 'Le', 'Eq': 'Eq', 'Ne': 'Ne'}
+_NEGATE = {'Lt': 'Ge', 'Ge': 'Lt', 'Gt': 'Le', 'Le': 'Gt', 'Eq': 'Ne', 'Ne': 'Eq'}
+
+
+def split_cmp(s):
+    """'Op(a, b)' with Op a comparison and a, b balanced -> (Op, a, b) else None"""
+    m = re.match(r'(Lt|Le|Gt|Ge|Eq|Ne)\((.*)\)$', s)
+    if not m:
+        return None
+    body = m.group(2)
+    depth = 0
+    for i, ch in enumerate(body):
+        if ch in '([':
+            depth += 1
+        elif ch in ')]':
+            depth -= 1
+            if depth < 0:
+                return None
+        elif ch == ',' and depth == 0 and body[i:i + 2] == ', ':
+            a, b = body[:i], body[i + 2:]
+            # exactly two top-level operands
+            d2 = 0
+            for ch2 in b:
+                if ch2 in '([':
+                    d2 += 1
+                elif ch2 in ')]':
+                    d2 -= 1
+                elif ch2 == ',' and d2 == 0:
+                    return None
+            return m.group(1), a, b
+    return None
+
+
+def spellings(s):
+    """equivalent spellings of a decision atom with the polarity relative to the original: [(string, +1 | -1)]"""
+    out = [(s, 1)]
+    c = split_cmp(s)
+    if c:
+        op, a, b = c
+        out.append(('%s(%s, %s)' % (_MIRROR[op], b, a), 1))
+        out.append(('%s(%s, %s)' % (_NEGATE[op], a, b), -1))
+        out.append(('%s(%s, %s)' % (_MIRROR[_NEGATE[op]], b, a), -1))
+    return out
+
+
+def _negv(v):
+    return 1 - v if isinstance(v, int) and not isinstance(v, bool) and v in (0, 1) else v
+
+
+def canon(s, v):
+    """canonical spelling of a decided comparison over unsigned quantities: only `Lt` and `Eq` remain, negation moves into the value,
+    `0 < x` / `x >= 1` become `Eq(x, 0)` negated. Other atoms are returned unchanged."""
+    c = split_cmp(s)
+    if not c:
+        m = re.fullmatch(r'(is_some|is_ok)\((.*)\)', s)
+        if m:
+            return ('discr(%s)' % m.group(2), v if m.group(1) == 'is_some' else _negv(v))
+        m = re.fullmatch(r'Not\((.*)\)', s)
+        if m:
+            return canon(m.group(1), _negv(v))
+        return (s, v)
+    op, a, b = c
+    if op == 'Gt':
+        op, a, b = 'Lt', b, a
+    elif op == 'Ge':
+        op, v = 'Lt', _negv(v)
+    elif op == 'Le':
+        op, a, b, v = 'Lt', b, a, _negv(v)
+    elif op == 'Ne':
+        op, v = 'Eq', _negv(v)
+    if op == 'Lt' and a == '0':
+        op, a, b, v = 'Eq', b, '0', _negv(v)
+    elif op == 'Lt' and b == '1':
+        op, b = 'Eq', '0'
+    if op == 'Eq':
+        a, b = sorted([a, b], key=lambda x: (x.isdigit(), x))
+    return ('%s(%s, %s)' % (op, a, b), v)
+
+
+def cdec(outcome_or_list):
+    """canonical decisions of a trace as a dict (for order- and spelling-independent comparison with `cwant`)"""
+    ds = outcome_or_list.st.decisions if hasattr(outcome_or_list, 'st') else outcome_or_list
+    out = {}
+    for d in ds:
+        a, v = d[0], d[1]
+        k, v2 = canon(a if isinstance(a, str) else vshow(a), v)
+        out[k] = v2
+    return out
+
+
+def cwant(pairs):
+    return dict(canon(a, v) for a, v in pairs)
+
+
+def decided(decisions, wanted):
+    """value (0/1) a trace decided for the comparison `wanted` (a printed atom), whichever of its four spellings the code used; None if undecided"""
+    for (a, v, *_r) in decisions:
+        if not isinstance(v, int):
+            continue
+        for s_, pol in spellings(a if isinstance(a, str) else vshow(a)):
+            if s_ == wanted:
+                return v if pol == 1 else 1 - v
+    return None
 
 
 def assignment(outcome, atoms, ignore=None):
